@@ -67,7 +67,7 @@ pub struct Group {
     pub items: Vec<Vec<MOp>>,
 }
 
-const STR_SAMPLES: &[&str] = &["", "a", "ab", "abc", "abcd", "abcde", "main", "GLSL.std.450", "OpenCL.std", "é", "日本", "😀", "a\"b\\c", "x y", "SPV_KHR_x", "tab\there", "nl\nx"];
+const STR_SAMPLES: &[&str] = &["", "a", "ab", "abc", "abcd", "abcde", "main", "GLSL.std.450", "OpenCL.std", "é", "日本", "😀", "a\"b\\c", "x y", "SPV_KHR_x", "tab\there", "nl\nx", "line1\nline2", "\n", "a\nbcdefg"];
 
 impl<'r> Gen<'r> {
     pub fn new(rng: &'r mut Rng, cfg: ProdCfg) -> Gen<'r> {
@@ -372,7 +372,7 @@ pub fn gen_stream(rng: &mut Rng, cfg: ProdCfg) -> Stream {
     let ctx_dependent = cfg.ctx_dependent;
     let spec_ops = cfg.spec_ops;
     let major = *rng.pick(&[1u8, 1, 1, 0, 2, 255]);
-    let minor = rng.below(7) as u8;
+    let minor = if rng.chance(1, 6) { *rng.pick(&[15u8, 16, 17, 31, 32, 128, 255]) } else { rng.below(7) as u8 };
     let version = version_word(major, minor);
     let generator = rng.word();
     let schema = if rng.chance(1, 8) { rng.word() } else { 0 };
@@ -519,4 +519,40 @@ pub fn plant_ext_inst(rng: &mut Rng, stream: &mut Stream) {
         }
     }
     stream.header.bound += 10;
+}
+
+/// Hot spot for code that re-derives literal widths AFTER parsing (the module disassembler tracks all
+/// global types first): an OpConstant whose type id is declared only later, or re-declared later with
+/// another width / kind.
+pub fn plant_late_type(rng: &mut Rng, stream: &mut Stream) {
+    let s = snap();
+    let ty = stream.header.bound + 1;
+    let decl = |rng: &mut Rng| -> MInst {
+        let float = rng.chance(1, 3);
+        let w = *rng.pick(&[8u32, 16, 32, 32, 64, 64, 7, 128]);
+        let mut ops = vec![MOp::W(s.k_lit32, w)];
+        if !float {
+            ops.push(MOp::W(s.k_lit32, rng.below(2) as u32));
+        }
+        MInst { opcode: if float { s.op("TypeFloat") } else { s.op("TypeInt") }, rtype: None, rid: Some(ty), ops }
+    };
+    let mut seq: Vec<MInst> = vec![];
+    let first = if rng.chance(1, 2) { Some(decl(rng)) } else { None };
+    // the literal is encoded for what the PARSER will know at that point
+    let two_words = match &first {
+        Some(d) => matches!(d.ops.first(), Some(MOp::W(_, 64))),
+        None => false,
+    };
+    if let Some(d) = first {
+        seq.push(d);
+    }
+    let lit = if two_words { MOp::L64(((rng.word() as u64) << 32) | rng.word() as u64) } else { MOp::W(s.k_lit32, rng.word()) };
+    seq.push(MInst { opcode: if rng.chance(3, 4) { s.op("Constant") } else { s.op("SpecConstant") }, rtype: Some(ty), rid: Some(ty + 1), ops: vec![lit] });
+    seq.push(decl(rng)); // declared (again) AFTER the constant
+    // module level: in front of the first function
+    let at = stream.insts.iter().position(|i| i.is("Function")).unwrap_or(stream.insts.len());
+    for (k, i) in seq.into_iter().enumerate() {
+        stream.insts.insert(at + k, i);
+    }
+    stream.header.bound += 4;
 }
